@@ -31,11 +31,24 @@
 #define ORD(Y, M, D) (ORDY(Y) + CUM(LEAP((Z)(Y)), M) + (Z)(D) - 1)
 #define EPOCH_ORD ((Z)719528) /* ORD(1970,1,1): lemma L3 */
 
-/* the same on small (int) arguments, for SAT-friendly obligations: valid for |Y| < 2^20 */
-#define ORDY_I(Y) (365 * (Y) + FD((Y) + 3, 4) - FD((Y) + 99, 100) + FD((Y) + 399, 400))
-#define ORD_I(Y, M, D) (ORDY_I(Y) + CUM(LEAP(Y), M) + (D) - 1)
-/* days in years [0,k) of the 400-year cycle whose year 0 is a leap year; k >= 0 */
-#define SK(k) (365 * (k) + ((k) + 3) / 4 - ((k) + 99) / 100 + ((k) + 399) / 400)
+/* ---- the same on SMALL years, in arithmetic that is cheap for a SAT solver ----------------------
+ * Valid for -7900 <= e <= 12000.  Years are shifted by +8000 (twenty 400-year cycles) to make them
+ * non-negative; x/100 is computed as (x*5243)>>19, exact for 0 <= x < 43699; x/4 as x>>2.  No
+ * division circuit is generated for these.  That they agree with ORD / LEAP / FM(.,400) above is
+ * lemma_I_anchor (harness/civil.c), proved over the whole domain - so the magic numbers are not
+ * trusted. */
+#define U_(e) ((e) + 8000)
+#define DIV100_(x) (((x) * 5243) >> 19)
+#define ORDY_I(e) (365 * U_(e) + ((U_(e) + 3) >> 2) - DIV100_(U_(e) + 99) + DIV100_((U_(e) + 399) >> 2) - 2921940)
+#define LEAP_I(e) ((U_(e) & 3) == 0 && (U_(e) != 100 * DIV100_(U_(e)) || (U_(e) >> 2) == 100 * DIV100_(U_(e) >> 2)))
+#define FM400_I(e) (U_(e) - 400 * DIV100_(U_(e) >> 2))
+#define ORD_I(e, M, D) (ORDY_I(e) + CUM(LEAP_I(e), M) + (D) - 1)
+/* days in years [0,k) of the 400-year cycle whose year 0 is a leap year; 0 <= k <= 1000 */
+#define SK(k) (365 * (k) + (((k) + 3) >> 2) - DIV100_((k) + 99) + DIV100_(((k) + 399) >> 2))
+/* division-based reference forms (used only by the anchoring lemma) */
+#define ORDY_ID(Y) (365 * (Y) + FD((Y) + 3, 4) - FD((Y) + 99, 100) + FD((Y) + 399, 400))
+#define SK_D(k) (365 * (k) + ((k) + 3) / 4 - ((k) + 99) / 100 + ((k) + 399) / 400)
+#define I_DOMAIN(e) (-7900 <= (e) && (e) <= 12000)
 
 #define VALID_YMD(y, m, d) (1 <= (m) && (m) <= 12 && 1 <= (d) && (d) <= DIM(LEAP(y), m))
 #define VALID_HMS(hh, mm, ss) (0 <= (hh) && (hh) < 24 && 0 <= (mm) && (mm) < 60 && 0 <= (ss) && (ss) < 60)
@@ -52,7 +65,10 @@
 #define ORD_MAX ORD(INT64_MAX, 12, 31)
 
 /* weekday number 0=Monday..6=Sunday of a day ordinal: 1970-01-01 (EPOCH_ORD) is a Thursday (3) */
-#define WD(ord) FM((ord) - EPOCH_ORD + 3, 7)
+#define WD_C ((Z)3 - EPOCH_ORD)
+#define WD(ord) FM((Z)(ord) + WD_C, 7)
+/* the same on small (int) ordinals */
+#define WD_I(o) FM((o) + (3 - 719528), 7)
 
 #define FIELDS_EQ(a, b) ((a).y == (b).y && (a).m == (b).m && (a).d == (b).d && (a).hh == (b).hh && (a).mm == (b).mm && (a).ss == (b).ss)
 #endif
